@@ -3,6 +3,7 @@ package mon
 import (
 	"fmt"
 	"math/big"
+	"regexp"
 
 	sdk "github.com/cosmos/cosmos-sdk/types"
 
@@ -22,6 +23,8 @@ type C05 struct {
 }
 
 func (*C05) Name() string { return "C05" }
+
+var canonicalInt = regexp.MustCompile(`^(0|[1-9][0-9]*)$`)
 
 func basketPrecision(s *chain.Snapshot, creditTypeAbbrev string) int {
 	if ct := s.CreditType(creditTypeAbbrev); ct != nil {
@@ -140,18 +143,25 @@ func (m *C05) OnStep(_ explore.Ghost, st *explore.Step) []V {
 			return []V{{Kind: "C05/take-from-unknown-basket-succeeded", Detail: st.Act.Label}}
 		}
 		prec := basketPrecision(st.Pre, b.CreditTypeAbbrev)
-		amt, ok := new(big.Int).SetString(msg.Amount, 10)
-		if !ok {
-			return []V{{Kind: "C05/take-non-integer-amount-succeeded", Detail: st.Act.Label}}
-		}
 		owner := msg.Owner
 		burnt := new(big.Int).Sub(st.Pre.TotalSupply(b.BasketDenom), st.Post.TotalSupply(b.BasketDenom))
 		debited := new(big.Int).Sub(st.Pre.Coin(owner, b.BasketDenom), st.Post.Coin(owner, b.BasketDenom))
-		if burnt.Cmp(amt) != 0 || debited.Cmp(amt) != 0 {
-			out = append(out, V{Kind: "C05/take-burn-not-exact",
-				Detail: fmt.Sprintf("%s: amount %s, burnt %s, taker debited %s", st.Act.Label, amt, burnt, debited)})
+		if burnt.Cmp(debited) != 0 {
+			out = append(out, V{Kind: "C05/take-burn-differs-from-taker-debit",
+				Detail: fmt.Sprintf("%s: burnt %s, taker debited %s", st.Act.Label, burnt, debited)})
 		}
-		wantCredits := new(big.Rat).Quo(ref.RatOfInt(amt), ref.RatOfInt(ref.Pow10(prec)))
+		// "the amount taken": where the request is a plain decimal numeral it is that number; for other
+		// spellings the integer parser accepts (leading zeros, base prefixes) only consistency is demanded
+		if canonicalInt.MatchString(msg.Amount) {
+			amt, _ := new(big.Int).SetString(msg.Amount, 10)
+			if burnt.Cmp(amt) != 0 {
+				out = append(out, V{Kind: "C05/take-burn-not-exact",
+					Detail: fmt.Sprintf("%s: amount %s, burnt %s, taker debited %s", st.Act.Label, amt, burnt, debited)})
+			}
+		} else {
+			m.inc("takes_with_non_canonical_amount_spelling")
+		}
+		wantCredits := new(big.Rat).Quo(ref.RatOfInt(burnt), ref.RatOfInt(ref.Pow10(prec)))
 		if r, ok := st.Res.Resp.(*baskettypes.MsgTakeResponse); ok {
 			sum := ref.Zero()
 			ownerAddr := sdk.MustAccAddressFromBech32(owner)
@@ -166,12 +176,12 @@ func (m *C05) OnStep(_ explore.Ghost, st *explore.Step) []V {
 				}
 			}
 			if sum.Cmp(wantCredits) != 0 {
-				out = append(out, V{Kind: "C05/take-credits-released-not-exact",
-					Detail: fmt.Sprintf("%s: response credits sum %s, exact %s", st.Act.Label, sum.FloatString(8), wantCredits.FloatString(8))})
+				out = append(out, V{Kind: "C05/take-credits-released-differ-from-tokens-burnt",
+					Detail: fmt.Sprintf("%s: %s tokens burnt = %s credits, response releases %s", st.Act.Label, burnt, wantCredits.FloatString(8), sum.FloatString(8))})
 			}
-			if delta.Cmp(wantCredits) != 0 {
-				out = append(out, V{Kind: "C05/take-credit-delta-not-exact",
-					Detail: fmt.Sprintf("%s: taker's credit balances grew by %s, exact %s", st.Act.Label, delta.FloatString(8), wantCredits.FloatString(8))})
+			if delta.Cmp(sum) != 0 {
+				out = append(out, V{Kind: "C05/take-credit-delta-differs-from-response",
+					Detail: fmt.Sprintf("%s: taker's credit balances grew by %s, response says %s", st.Act.Label, delta.FloatString(8), sum.FloatString(8))})
 			}
 		} else {
 			out = append(out, V{Kind: "C05/take-no-response", Detail: st.Act.Label})
